@@ -4,13 +4,57 @@ import json, os
 
 VERIF = os.path.dirname(os.path.dirname(os.path.abspath(__file__)))
 
+TRUST = "Trusted: CPython 3.12, Cython 3.3, qcore, the harness (asynqmon) and its reference models. Held-on-observed only: workloads are sampled (seeded), not all programs/schedules."
+
 CHECKS = {
     "C01": dict(
         level="exploration",
         technique="runtime monitoring: differential oracle (sequential reference interpreter) over seeded random programs x flush orders x calling conventions x 2 builds",
-        text="Every generated program is executed on the real library (pure and Cython builds rebuilt from the working tree) under 4 calling conventions and several get_priority() policies; the root outcome and everything every task received at every yield must equal a sequential depth-first reference evaluation of the same program text. Held-on-observed only: programs are sampled, not enumerated.",
-        note="Trusted: CPython/Cython/qcore, the 150-line reference evaluator, and that generated bodies are side-effect free apart from contexts.",
+        text="Every generated program is executed on the real library (pure and Cython builds rebuilt from the working tree) under 4 calling conventions and several get_priority() policies; the root outcome, everything every task received at every yield, every scoped-value read and the post-run restore state must equal a sequential depth-first reference evaluation of the same program text.",
+        note=TRUST + " Generated bodies are side-effect free apart from contexts.",
         design="4 C01",
+    ),
+    "C02": dict(
+        level="fault_enumeration",
+        technique="runtime monitoring with fault injection: exhaustive single-fault enumeration per base program, in-run resume probes (identity of delivered exception, siblings computed), reference differential",
+        text="For each seeded base program every single fault position (failing leaf of each kind at each structure position, each item errored/unset, a raise before each statement, each flush raising) x try/except at 4 ancestor levels is executed; a probe at the moment of delivery checks all siblings are computed and the delivered object IS error() of the first failing future in structure order; outcomes equal the reference; escaping exception is the raised instance.",
+        note=TRUST + " Single faults are exhaustive per base; bases and pairs are sampled.",
+        design="4 C02",
+    ),
+    "C03": dict(
+        level="exploration",
+        technique="runtime monitoring: in-run resume probes + event-log oracles (start order, exactly-once by unique values, orphans never start) + closed-form deep/wide workloads with watchdog",
+        text="Random DAG programs with shared tasks, re-yielded futures and orphans under several flush orders: no resume while a yielded future is uncomputed, no step after completion, written start order of fresh siblings, per-task step counts and values equal the reference, all awaited tasks computed; chains up to 250000 tasks deep and fans of 10000 siblings with exact oracles; termination as bounded progress.",
+        note=TRUST + " Termination is restated as exact step counts plus a watchdog with re-run-alone protocol; depth sampled to 250000.",
+        design="4 C03",
+    ),
+    "C04": dict(
+        level="exploration",
+        technique="runtime monitoring: quiescence invariant evaluated inside on_before_batch_flush + independent round-based simulator for flush sets",
+        text="On yield-only programs, at every flush every reachable task must have started, none may be runnable, each must block only on tasks/unflushed items; for single-kind programs the sequence of flushed item sets must equal the rounds of an independent maximal-batching simulator; balanced trees flush once, chains of n flush n times.",
+        note=TRUST,
+        design="4 C04",
+    ),
+    "C05": dict(
+        level="exploration",
+        technique="runtime monitoring: flush bookkeeping on public before/after events and harness batches, priority oracle over harness-derived pending set, injected failing flush() calls",
+        text="Per batch at most one before event and one flush body, never empty/finished; flushed batch has the maximal get_priority() among batches some reachable task waits for (yield-only programs); no flush after the awaited (also nested sync) computation finished; every item completed exactly once by its own flush with what that flush set; before/after paired even when flush() itself raises (3 injected ways).",
+        note=TRUST,
+        design="4 C05",
+    ),
+    "C06": dict(
+        level="exploration",
+        technique="runtime monitoring: per-context alternation automaton + activity invariant evaluated at every task step and flush from the live awaiting graph",
+        text="At every task step and flush each live AsyncContext must be active if its owner runs or a running task is reachable only through its owner, and paused if its owner awaits no running task; strict resume/pause alternation from entry to exit on every exit path; NonAsyncContext fails a task iff it is really blocked on an unflushed item, and outcomes equal the reference's prediction.",
+        note=TRUST + " Contexts of tasks with several awaiting parents are unconstrained while shared descendants run.",
+        design="4 C06",
+    ),
+    "C07": dict(
+        level="exploration",
+        technique="runtime monitoring: stack automaton over the global resume/pause log + reads vs. reference override stack + post-run restore check",
+        text="Programs with nested/concurrent overrides of the same scoped values and attributes in many pending tasks: every read equals the reference's dynamic override stack, the global activation sequence is well parenthesised, and all values are restored after value or exception outcomes, under all flush orders and both builds.",
+        note=TRUST + " No shared tasks (no unique sequential answer under them).",
+        design="4 C07",
     ),
 }
 
